@@ -1,3 +1,5 @@
+(* HISTORY, not built: refutation witness for the code BEFORE fix 9dc1449 (relPos >= int16(len(rr.buffer))).
+   It was proved against the old Model.v; the repaired model no longer satisfies it. *)
 (* Receiver (C14): BufferSize 32768.  int16(len(rr.buffer)) is -32768, so the test
    "relPos >= int16(len(rr.buffer))" succeeds for every packet ahead of the head: nothing is ever
    buffered and a packet that is late by a single position is dropped (finding bufsize-int16-overflow). *)
